@@ -194,6 +194,14 @@ func topologyScenarios(tier string) []clustermc.Scenario {
 		{"elastic3min1+1running", func(tc *schedv2alpha2.TopologyConstraint) world.WL {
 			return world.WL{Queue: "qa", MinMember: 1, Topology: tc, Pods: []world.PodSpec{{Shape: shG1, State: world.StRunning, Node: "n1"}, {Shape: shG1}, {Shape: shG1}}}
 		}},
+		// elastic workloads with nothing running yet: the pods beyond the minimum are placed by later
+		// attempts of the same cycle and must join the domain of the pods placed OR nominated before
+		{"elastic2min1-pending", func(tc *schedv2alpha2.TopologyConstraint) world.WL {
+			return world.WL{Queue: "qa", MinMember: 1, Topology: tc, Pods: pods(2, shG1, "", "")}
+		}},
+		{"elastic3min1-pending", func(tc *schedv2alpha2.TopologyConstraint) world.WL {
+			return world.WL{Queue: "qa", MinMember: 1, Topology: tc, Pods: pods(3, shG1, "", "")}
+		}},
 		{"subgroups-a(rack)x2-b(rack)x1-in-zone", func(tc *schedv2alpha2.TopologyConstraint) world.WL {
 			rack := &schedv2alpha2.TopologyConstraint{Topology: "t", RequiredTopologyLevel: lblRack}
 			ps := pods(3, shG1, "", "")
@@ -216,6 +224,8 @@ func topologyScenarios(tier string) []clustermc.Scenario {
 		{"n1-busy-qb", []world.WL{{Queue: "qb", Pods: pods(1, shG1, world.StRunning, "n1")}}},
 		{"n1,n2-busy-qb(over-quota)", []world.WL{{Queue: "qb", Pods: pods(1, shG1, world.StRunning, "n1")}, {Queue: "qb", Pods: pods(1, shG1, world.StRunning, "n2")}}},
 		{"n4-busy+n3-terminating", []world.WL{{Queue: "qb", Pods: pods(1, shG1, world.StRunning, "n4")}, {Queue: "qb", Pods: pods(1, shG1, world.StTerminating, "n3")}}},
+		{"n1-busy+n2-terminating", []world.WL{{Queue: "qb", Pods: pods(1, shG1, world.StRunning, "n1")}, {Queue: "qb", Pods: pods(1, shG1, world.StTerminating, "n2")}}},
+		{"n1-terminating", []world.WL{{Queue: "qb", Pods: pods(1, shG1, world.StTerminating, "n1")}}},
 		{"competitor-plain-gang2", []world.WL{{Queue: "qb", MinMember: 2, Pods: pods(2, shG1, "", "")}}},
 	}
 	cfgs := []schedrun.Config{{}, {Placement: "spread", ConsolidatingReclaim: true}, {MapSeed: 2}}
